@@ -1,4 +1,5 @@
 import OntVerif.Proofs.BloomBook
+import OntVerif.Gen.BloomAlias
 /-!
 # C43 — Block log blooms never miss a log of the block; the section bit index agrees with the block blooms
 
@@ -46,6 +47,18 @@ theorem C43_section_agrees (S : Nat) (hS : S % 8 = 0) (blooms : List Bloom) (hle
 
 /-- a generator for a section size that is not a multiple of 8 is refused (the model keeps the error branch) -/
 example : sectionVectors 12 (List.replicate 12 0) = none := by simp [sectionVectors, newGen]
+
+/-! ### The Go aliasing facts the value-based model of `bloomCache` relies on (`Gen/BloomAlias.lean`, regenerated from
+`core/store/ledgerstore/block_store.go` on every run)
+
+`bloomCache` is a `map[uint32]*types2.Bloom`; the model keeps a bloom VALUE per height.  That is faithful only if every
+`bloomCache[h] = &x` takes the address of a variable that is a distinct variable per stored height (a by-value parameter of a
+function that stores once per call, or a variable declared inside the body of the loop that stores it) and nothing writes through an
+entry.  If `LoadBloomBits` took the address of a variable declared outside its loop, every reloaded entry would alias it. -/
+
+open OntVerif.Gen.BloomAlias in
+theorem C43_cache_entries_distinct :
+    cacheStoresDistinct = true ∧ cacheStores.length = 2 ∧ cacheWritesThroughEntry = [] := by decide
 
 /-- every committed height belongs to exactly one section -/
 theorem C43_one_section (S : Nat) (hS : 0 < S) (h : Nat) : ∃ k, (k * S ≤ h ∧ h < k * S + S) ∧ ∀ k', (k' * S ≤ h ∧ h < k' * S + S) → k' = k := by
